@@ -594,7 +594,7 @@ def _apply_block(text, first_line, relpath, directives, tmpl_file, log, stub):
     return out
 
 
-def assemble(unit_name, repo=None):
+def assemble(unit_name, repo=None, extra_takes=()):
     repo = repo or REPO
     tmpl_rel = 'units/%s.rs' % unit_name
     tmpl = os.path.join(VERIF, tmpl_rel)
@@ -619,6 +619,11 @@ def assemble(unit_name, repo=None):
                 raw.append((l, (kind, rel, k + 1)))
 
     expand(tmpl_rel, 'spec')
+    if extra_takes:
+        # constants the extracted code refers to but the template does not list (a change introduced them): taken verbatim
+        idx = max(i for i, r in enumerate(raw) if r[0].strip().startswith('} // verus!'))
+        for rel, name in extra_takes:
+            raw.insert(idx, ('//@take %s const:%s' % (rel, name), ('spec', tmpl_rel, 0)))
     src_lines = [r[0] for r in raw]
     origins = [r[1] for r in raw]
     i = 0
